@@ -35,6 +35,7 @@ package main
 
 import (
 	"bytes"
+	"flag"
 	"fmt"
 	"math/rand"
 	"os"
@@ -539,8 +540,18 @@ func gen(seed int64, p []byte) []byte {
 }
 
 func main() {
+	mode := flag.String("mode", "crypt", "crypt | login (histories through the callers of CheckPasswd)")
 	run = hx.Start("C02")
 	defer run.Finish()
+	if run.Replay != "" {
+		// a replay may hold ops of either pass: dispatch per line (./check replays through the first pass)
+		replayAny(hx.ReplayOps(run.Replay))
+		return
+	}
+	if *mode == "login" {
+		loginMain()
+		return
+	}
 	r := run.R
 	run.Rule = "passwords: length 0..20, bytes biased to {NUL, 0x80, 0xff, printable}, exhaustive lengths 0..2 over 7 byte values; " +
 		"salts: every alphabet character at either position (quick), all 64^2 pairs (thorough), 13-char hashes as salt; " +
